@@ -128,7 +128,11 @@ func main() {
 						bad++
 					}
 					fmt.Printf("    %-70s %s (%d sub-checks)\n", n, st, ob.Subs)
-					for _, f := range ob.Fails {
+					for fi, f := range ob.Fails {
+						if fi >= 2 && !*verbose {
+							fmt.Printf("        ... %d more\n", len(ob.Fails)-fi)
+							break
+						}
 						fmt.Printf("        path %d: %s [%s] %s\n", f.Path, f.Status, f.Check.Note, f.Detail)
 						if *verbose {
 							fmt.Printf("        trace: %s\n", fr.PathInfo[f.Path].Trace)
